@@ -1,9 +1,9 @@
 // World `apptoken` — property C15.
 // Layer 0: rlbox::app_pointer_map<uint8_t> driven directly (public template),
-//          per-run limit 1..254.
+//          per-run limit 1..255 (255 = the largest value of the token type).
 // Layer 1: rlbox_sandbox<sim>::get_app_pointer / lookup_app_ptr with owner
 //          objects that are moved, move-assigned (onto empty / live / self),
-//          unregistered and destroyed; region 4 KiB (limit 4095) or 64 KiB.
+//          unregistered and destroyed; region 256 B (limit 255), 4 KiB (limit 4095) or 64 KiB.
 #include "../sim/world_common.hpp"
 #include "../sim/aligned_new.hpp" // fresh heap blocks hold 0xA5: a member left unwritten by a constructor is visible, and the same in every execution
 #include "rlbox_noop_sandbox.hpp"
@@ -51,9 +51,9 @@ struct AppTokenWorld : World
       limit = 1LL << 40; // noop: 64-bit tokens, exhaustion unreachable
     } else if (layer == 0) {
       unsigned c = (unsigned)r.below(10);
-      limit = c < 5 ? r.range(1, 6) : c < 7 ? 254 : r.range(7, 253);
+      limit = c < 5 ? r.range(1, 6) : c < 6 ? 254 : c < 7 ? 255 : r.range(7, 253);
     } else {
-      limit = r.chance(3, 4) ? 4095 : 65535; // region size - 1
+      limit = r.chance(1, 2) ? 255 : r.chance(3, 4) ? 4095 : 65535; // region size - 1 (a 256-byte region is exhausted quickly: tokens right below the limit are in use)
     }
     p.cfg = { layer, limit };
     int n = (int)r.range(3, thorough ? 60 : 40);
@@ -92,8 +92,10 @@ struct AppTokenWorld : World
     int64_t limit = p.cfg.size() > 1 ? p.cfg[1] : 4;
     if (limit < 1)
       limit = 1;
-    if (limit > 254)
-      limit = 254;
+    if (limit > 255)
+      limit = 255;
+    if (limit == 255)
+      c.probe("token_limit_is_largest_value_of_token_type");
     rlbox::app_pointer_map<uint8_t> map;
     std::map<unsigned, void*> model; // token -> pointer
     std::vector<unsigned> released; // tokens released and not reissued
@@ -258,7 +260,7 @@ struct AppTokenWorld : World
     constexpr bool is_sim = std::is_same_v<SbxT, Sbx>;
     int64_t limit = p.cfg.size() > 1 ? p.cfg[1] : 4095;
     Sbx::cfg = Sbx::Config();
-    Sbx::cfg.size = limit >= 65535 ? 65536 : 4096;
+    Sbx::cfg.size = limit >= 65535 ? 65536 : limit <= 255 ? 256 : 4096;
     limit = is_sim ? (int64_t)Sbx::cfg.size - 1 : INT64_MAX; // noop: the whole address space
     run_begin(&c);
     {
@@ -339,6 +341,18 @@ struct AppTokenWorld : World
         if (addr != base + tok || s.o->is_unregistered()) {
           c.violate("C15", std::string("owner_designates_wrong_address@") + opn, "token=%llu addr-base=%lld", (unsigned long long)tok, (long long)(addr - base));
           return false;
+        }
+        {
+          // the token just issued resolves to its pointer (whatever its value, right up to the limit)
+          int* back = nullptr;
+          auto tt = s.o->to_tainted();
+          Outcome lo = attempt([&] { back = sb.lookup_app_ptr(tt); });
+          if (lo != OK || back != ptr) {
+            c.violate("C15", std::string("live_token_wrong_pointer@") + opn, "token=%llu (limit %lld) looked up right after it was issued: %s", (unsigned long long)tok, (long long)limit, oname(lo));
+            return false;
+          }
+          if (tok + 4 > (uint64_t)limit && is_sim)
+            c.probe("token_within_a_pointee_of_the_limit_looked_up");
         }
         auto it = std::find(released.begin(), released.end(), tok);
         if (it != released.end()) {
